@@ -1818,6 +1818,7 @@ class Model:
         self._surrogates[name] = surrogate
         return self
 
+    @_invalidate_cache
     def update_surrogate(
         self,
         name: str,
@@ -1866,6 +1867,7 @@ class Model:
         self._surrogates[name] = surrogate
         return self
 
+    @_invalidate_cache
     def remove_surrogate(self, name: str) -> Self:
         """Remove a surrogate model from the model.
 
